@@ -457,8 +457,17 @@ func errNilness(v ssa.Value, at *ssa.BasicBlock, depth int) nilState {
 		case "errors.New", "fmt.Errorf":
 			return neverNil
 		}
-		if strings.HasSuffix(n, "unexpectedMessageError") || strings.HasSuffix(n, "parseError") {
-			return neverNil
+		// a module function all of whose returns are non-nil errors
+		if f := x.Call.StaticCallee(); f != nil && len(f.Blocks) > 0 && f.Signature.Results().Len() == 1 && depth < 4 {
+			all := true
+			for _, r := range returnsOf(f) {
+				if errNilness(retVal(r, 0), r.Block(), depth+2) != neverNil {
+					all = false
+				}
+			}
+			if all && len(returnsOf(f)) > 0 {
+				return neverNil
+			}
 		}
 	case *ssa.UnOp:
 		if x.Op == token.MUL {
